@@ -16,6 +16,7 @@ def step (d : D) (toks : List String) : D × String :=
       | ["signal", _, n] => [.signal (n.toNat?.getD 0)]
       | ["got", _, n] => [.got (n.toNat?.getD 0)]
       | "late-write" :: _ => [.late]
+      | ["remaining", n] => [.remaining (n.toNat?.getD 0)]
       | _ => []
     match run d.st evs with
     | .error m => ({ d with rejected := true }, "reject " ++ m)
